@@ -1,4 +1,5 @@
 import FparserModel.Proofs.Reader3FixIgn
+import FparserModel.Proofs.Reader3FixOmpSrc
 import FparserModel.Props.Reader
 
 /-!
@@ -161,6 +162,20 @@ theorem omp_fixed_enabled (r r' : Rd) (h : OmpSim r r') :
       (next1 r').1 = (next1 r).1 ∧ OmpSim (next1 r).2 (next1 r').2) :=
   ⟨getSingleLine_sim r r' h, getSourceItem_sim r r' h, next1_sim r r' h⟩
 
+/-- C15 `omp_fixed_enabled` for EVERY source (no hypothesis on the text): `ompBlank l` is the
+    cooked line `l` with a `!$`/`c$`/`C$`/`*$` sentinel blanked per the column-6 rule, and it is a
+    fixed point of `cook`. A fixed-form reader with the flag ON behaves like the same reader with
+    the flag OFF reading `src.map ompBlank`: same physical lines, and while the format stays
+    fixed the same `_next` result with again related states. -/
+theorem omp_fixed_enabled_any_source (r : Rd) (ho : r.omp = true) (hf : r.isFree = false) :
+    (∀ l, cook (ompBlank l) = ompBlank l) ∧ OmpSim r (flagOff (r.src.map ompBlank) r) ∧
+    (getSingleLine (flagOff (r.src.map ompBlank) r)).1 = (getSingleLine r).1 ∧
+    ((next1 (flagOff (r.src.map ompBlank) r)).2.isFree = false →
+      (next1 (flagOff (r.src.map ompBlank) r)).1 = (next1 r).1 ∧
+      OmpSim (next1 r).2 (next1 (flagOff (r.src.map ompBlank) r)).2) :=
+  ⟨cook_ompBlank, ompSim_blank r ho hf, (getSingleLine_sim r _ (ompSim_blank r ho hf)).1,
+   next1_sim r _ (ompSim_blank r ho hf)⟩
+
 /-- C15 `omp_fixed_enabled`, source level (corollary of `fixed_items_drain`): a fixed-form reader
     with the flag ON whose source blanks (`SrcSim`) to the layout `pre ++ stmtSrc (s :: ss)` is
     drained to exactly the items of that layout; the final state is the one of the flag-off
@@ -280,6 +295,14 @@ example : (next1 (Rd.mk' ompSrc false false true false [])).1 = .ok (.line "x = 
     ⟨ompSrc', ompSrc_sim, rfl, rfl, rfl⟩
   rw [← ((omp_fixed_enabled _ _ h).2.2 (by decide +kernel)).1]
   decide +kernel
+
+/-- `omp_fixed_enabled_any_source`: the twin source is computed, not guessed -/
+example : ompSrc.map ompBlank = ompSrc' := by decide +kernel
+
+example : (next1 (Rd.mk' ompSrc false false true false [])).1 =
+    (next1 (Rd.mk' (ompSrc.map ompBlank) false false false false [])).1 :=
+  (((omp_fixed_enabled_any_source (Rd.mk' ompSrc false false true false []) rfl rfl).2.2.2)
+    (by decide +kernel)).1.symm
 
 def ompStmts : List FStmt :=
   [⟨"   10 x = 1 +".toList, ["     & 2".toList, "!$omp parallel".toList, "*$ 1 5 y".toList]⟩,
